@@ -388,9 +388,23 @@ def run_case(case):
                          f"cause: {why}",
                          {"spec1": str(spec1)[:1500], "spec2": str(spec2)[:1500]})
         try:
-            Bijection.construct(spec1, spec2)  # C12 postcondition
+            bij = Bijection.construct(spec1, spec2)  # C12 postcondition
         except NotImplementedError:
-            pass
+            bij = None
+        if fin and ok and bij is not None:
+            # the bijection built on the returned pair, point by point (the whole finite language)
+            images = {}
+            for w in case["lang1"]:
+                img = bij.map(finlang.FW(w))
+                cx.count("finder.bijection_points_checked")
+                if str(img) not in case["lang2"] or len(img) != len(w) or str(bij.inverse_map(img)) != w:
+                    cx.violation("C12:map-not-a-size-preserving-bijection",
+                                 f"bijection on a pair returned by {Finder.__name__}: {w!r} -> {str(img)!r}, back "
+                                 f"{str(bij.inverse_map(img))!r}", None)
+                images[str(img)] = w
+            if len(images) != len(case["lang1"]) or len(case["lang1"]) != len(case["lang2"]):
+                cx.violation("C12:map-not-a-size-preserving-bijection",
+                             f"{len(case['lang1'])} words are sent to {len(images)} of {len(case['lang2'])}", None)
         p1, p2 = searchlib.spec_profile(spec1), searchlib.spec_profile(spec2)
         return {"nontrivial": (p1["rules"] >= 4 and p2["rules"] >= 4) or bool(off_rep), "fingerprint": fp(case)}
     finally:
